@@ -60,4 +60,42 @@ theorem sched_relations_valid (n fbsize maxlarge : Nat) (hn : n ≤ 2 ^ 512)
   rw [c1, hnn] at c2
   simpa using c2
 
+theorem foldl_addE_error (e : Err) (l : List (Relation × Option (Nat × Nat))) :
+    l.foldl addE (.error e) = .error e := by
+  induction l with
+  | nil => rfl
+  | cons a t ih => simp only [List.foldl_cons, addE]; exact ih
+
+theorem foldl_addE_runHistory : ∀ (l : List (Relation × Option (Nat × Nat))) (s : Store),
+    l.foldl addE (.ok s) = runHistory l s
+  | [], s => rfl
+  | (r, pq) :: t, s => by
+    simp only [List.foldl_cons, addE, runHistory]
+    cases h : Ymq.Relations.add r pq s with
+    | error e => rw [foldl_addE_error]; rfl
+    | ok s1 => rw [foldl_addE_runHistory t s1]; rfl
+
+/-- **No consistency assertion of the shared store can fire under any schedule**: if every relation
+the work units produce satisfies the callers' contract `InputOK2` (what siqs/mpqs/qs and
+`fbase::cofactor` guarantee: C11), then for EVERY interleaving and every pattern of stale flag reads
+the shared relation store never reaches an assert, unwrap or debug assertion of `RelationSet::add`
+— the only error the model can return is the `u64` counter overflow. -/
+theorem sched_no_panic (n fbsize maxlarge : Nat) (hn : n ≤ 2 ^ 512)
+    (enough : M Store → Bool) (progs : List (List (List (Relation × Option (Nat × Nat)))))
+    (hgood : ∀ prog ∈ progs, ∀ u ∈ prog, ∀ op ∈ u,
+      ∀ s : Store, s.n = n → s.maxlarge = maxlarge → InputOK2 s op.1 op.2)
+    (sched : List (Nat × Bool × Bool)) :
+    ∀ e, (run addE enough (init (.ok (Store.new n fbsize maxlarge)) progs) sched).store = .error e →
+      e = .overflow := by
+  intro e he
+  have h := sched_inv (ρ := Relation × Option (Nat × Nat)) (σ := M Store) addE enough
+    (fun _ => True) (fun _ => True) (fun _ _ _ _ => trivial)
+    (.ok (Store.new n fbsize maxlarge)) progs trivial (fun _ _ _ _ _ _ => trivial) sched
+  obtain ⟨h1, _, _, h4⟩ := h
+  rw [h1, foldl_addE_runHistory] at he
+  refine C11.history_no_panic n fbsize maxlarge hn _ ?_ e he
+  intro op hop s hs hm
+  obtain ⟨prog, hp, u, hu, hou⟩ := h4 op hop
+  exact hgood prog hp u hu op hou s hs hm
+
 end Ymq.C04
